@@ -1197,21 +1197,67 @@ def c16(p, tier, replay):
         o = observations[j["i"] - 1]
         v.report("c16.trace", {"t": None}, "seed %s, %s threads :: %s %s" % (o["seed"], o["threads"], j["verdict"], o.get("died", "")),
                  {"seed": o["seed"], "threads": o["threads"], "events": o["events"][:400]})
+    # ---- spec -> impl: behaviours of the model as schedules forced on the real threads (hooks as gates)
+    nsched, ndistinct, nsteps = 0, 0, 0
+    plans = [("CacheSched.cfg", 400 if tier == "quick" else 3000)] + ([("CacheSched3.cfg", 2000)] if tier == "thorough" else [])
+    if replay and json.load(open(replay))["record"].get("sched") is not None:
+        plans = []
+        sched_recs = [json.load(open(replay))["record"]]
+    else:
+        sched_recs = []
+    if replay and not sched_recs:
+        plans = []
+    for (cfg, num) in plans:
+        name = "cachesched_%s_%s" % (tier, cfg.split(".")[0])
+        sr = vlib.run_tlc("CacheSched.tla", cfg, name, workers=1, timeout=3000, simulate=num, depth=400)
+        if sr["violated"]:
+            raise ToolError("CacheSched: TLC reports a violation in the specification itself (see %s)" % sr["out"])
+        dest = os.path.join(WORK, name + ".ndjson")
+        vlib.printed_json(sr["out"], dest)
+        sched_recs += [json.loads(l) for l in open(dest)]
+    seen = set()
+    sfile = os.path.join(WORK, "c16_schedule.json")
+    for rec in sched_recs:
+        key = json.dumps(rec, sort_keys=True)
+        if key in seen:
+            continue
+        seen.add(key)
+        json.dump(rec, open(sfile, "w"))
+        try:
+            pr = subprocess.run([binp, "sched", plugin, sfile], cwd=WORK, timeout=120, stdout=subprocess.PIPE, stderr=subprocess.PIPE,
+                                env=dict(os.environ, RUST_BACKTRACE="0"))
+            o = json.loads(pr.stdout.decode().strip().splitlines()[-1])
+        except Exception as e:
+            o = {"failed": "the run produced no result (%s)" % e, "followed": 0, "total": len(rec["sched"]), "hung": True, "results_ok": False}
+        nsched += 1
+        nsteps += o["followed"]
+        why = o["failed"] or ("not all threads finished" if o["hung"] else None) or \
+            (None if o["followed"] == o["total"] else "threads finished after %d of %d scheduled steps" % (o["followed"], o["total"])) or \
+            (None if o["results_ok"] else "results differ from the sequential results")
+        if why:
+            v.report("c16.schedule", {"t": None}, "programs %s :: %s" % (json.dumps(rec["progs"]), why), rec)
+    ndistinct = len(seen)
     races = sum(1 for o in observations if sum(1 for e in o["events"] if e["l"] == "Miss") >= 2)
     nev = sum(len(o["events"]) for o in observations)
     samples = [{"seed": o["seed"], "threads": o["threads"], "first_events": o["events"][:14]} for o in observations[:1]]
     cov = {"states": r["stats"]["distinct"] + t["stats"]["distinct"], "transitions": r["stats"]["generated"] + t["stats"]["generated"],
-           "traces_validated_against_impl": len(observations), "evaluations": len(observations), "distinct_nontrivial": races,
+           "traces_validated_against_impl": len(observations) + ndistinct, "evaluations": len(observations) + ndistinct,
+           "distinct_nontrivial": races + ndistinct,
+           "schedules_forced_on_real_threads": ndistinct, "scheduled_steps_followed": nsteps,
            "rule": "model: all interleavings of the thread programs of CacheMC (first use of the same and of different interfaces, cached creation, calls, calls "
                    "that create nested connections, load_shared_library); implementation: one process per run, N threads started at a barrier performing seeded "
                    "random operations (create / load a real cdylib / call / calls with boxed-trait arguments that create further connections); "
-                   "non-trivial = runs with at least two first-use negotiations",
+                   "non-trivial = runs with at least two first-use negotiations; schedules: distinct behaviours of CacheSched.tla drawn by TLC's simulator "
+                   "(2 threads; thorough also 3), each forced step by step on real threads in a fresh process",
            "events_validated": nev, "samples": samples, "exhaustive": False,
            "explanation": "TLC checks Cache.tla exhaustively for the configured threads: no deadlock, OneNegotiationPerKey, TemplatesNegotiated, LockOrder, "
                           "ResultsEqualSequential and (liveness, weak fairness per thread) EveryOpCompletes; recorded traces of real multi-threaded runs - hook events "
                           "emitted under the protecting mutex, ordered by a sequence number taken under it - are validated by TLC against CacheTrace.tla (every event "
-                          "enabled in the replayed cache state, all mutexes released, all threads finished, results equal the sequential ones)"}
+                          "enabled in the replayed cache state, all mutexes released, all threads finished, results equal the sequential ones); in the other "
+                          "direction behaviours of the model are forced on real threads: the hooks act as gates that let a thread pass label l only when the "
+                          "schedule's next entry is (thread, l), so that the real code must be able to take exactly the model's steps in the model's order"}
     return v.finish("model_checking", cov, [
-        "the model is exhaustive for 2 threads (quick) / 3 threads (thorough); real runs sample interleavings (barrier start, seeded yields in the hooks)",
+        "the model is exhaustive for 2 threads (quick) / 3 threads (thorough); free real runs sample interleavings (barrier start, seeded yields in the hooks); "
+        "forced schedules are drawn at random from the model's behaviours (TLC -simulate), not enumerated",
         "outside the property's quantifier but visible in the model: the template mutex is held across CreateInstance, so an implementation whose constructor "
         "creates a connection would self-deadlock; a panic under that mutex poisons all later connections"])
